@@ -16,6 +16,10 @@ type Tape struct {
 	pos    int
 	// KeepLabels records a label per draw (used for replay files only).
 	KeepLabels bool
+	// Expect holds the labels a replay file recorded with its tape. A draw made through DrawOptional whose label is
+	// not the one recorded at this position was added to the check after the file was written: it takes its default
+	// and consumes nothing, so older replay files keep driving the case they were recorded for.
+	Expect []string
 }
 
 func NewTape(seed uint64) *Tape {
@@ -47,6 +51,14 @@ func (t *Tape) Draw(n int, label string) int {
 		t.Labels = append(t.Labels, label)
 	}
 	return v
+}
+
+// DrawOptional is Draw for a choice that was added to a generator later (see Expect).
+func (t *Tape) DrawOptional(n int, label string, deflt int) int {
+	if t.replay && t.Expect != nil && (t.pos >= len(t.Expect) || t.Expect[t.pos] != label) {
+		return deflt
+	}
+	return t.Draw(n, label)
 }
 
 // Len is the number of draws made so far.
